@@ -48,6 +48,7 @@ fn main() {
         "record" => cmd_record::run(&args),
         "replay-compare" => cmd_compare::run(&args),
         "record-jax" => cmd_jaxrec::run(&args),
+        "record-group" => cmd_group::record(&args),
         "replay-linkage" => cmd_linkage::run(&args),
         "record-linkage" => cmd_linkage::record(&args),
         "replay-setmeta" => cmd_setmeta::run(&args),
